@@ -11,7 +11,8 @@ ID = 'C08'
 LEVEL = 'proof'
 CLUSTER = 'G'
 GEN_UNITS = ['Consts', 'record_loop', '_format_pdb_linelength', '_get_chainID', '_get_element',
-             'rmsd_runtime', 'rmsd_compute_residue_pairs_ref', 'rmsd_compute_fnat_fast']
+             'rmsd_runtime', 'rmsd_compute_residue_pairs_ref', 'rmsd_compute_fnat_fast',
+             'sim_runtime', 'sim_compute_fnat_pdb2sql', 'sim_compute_clashes']
 MODELS = ['Model.Fnat.fnatFast', 'Model.Fnat.fnatSql', 'Model.Fnat.clashes', 'Model.Fnat.fixChainID']
 RULE = ('reference = synthetic two-chain complex from complexgen (3-12 residues per chain, backbone + 0-4 side-chain atoms, optional hydrogens '
         'named H/HA/1HB/HD21, plain/negative/gappy/offset numbering, inter-strand gap 3.5-11 A, chain identifiers A/B, X/Y, B/A, L/H, 1/2, a/A); '
@@ -138,11 +139,11 @@ def make_decoy(rng, ref, family, cutoff):
     return cg.delete_some(rng, dec, n_res=rng.randint(0, 2), n_atoms=rng.randint(0, 3))
 
 
-def random_pair(rng, family):
+def random_pair(rng, family, long_residues=False):
     for attempt in range(30):
         cutoff = rng.choice(CUTOFFS)
         chains = rng.choice(CHAIN_PAIRS)
-        ref = cg.make_complex(rng, chains=chains)
+        ref = cg.make_complex(rng, chains=chains) if not long_residues else cg.make_long_complex(rng, chains=chains)
         dec = make_decoy(rng, ref, family, cutoff)
         rl, dl = ref.lines(), dec.lines()
         if family == 'blank_name':
@@ -346,6 +347,12 @@ def cases(ctx):
             rl, dl, cutoff = random_pair(rng, fam)
             default = (cutoff == 5.0 and rng.random() < 0.5)
             out.append(fnat_case(rl, dl, cutoff, fam, via=rng.choice(['file', 'file', 'list']), default=default))
+    # long residues touching tip to tip (centres far apart, atoms in contact): any geometry is in the quantifier
+    for fam in ('self', 'jitter', 'del_res', 'del_atoms', 'rigid_chain', 'permute'):
+        for k in range(ctx.scale(2, 12)):
+            rl, dl, cutoff = random_pair(rng, fam, long_residues=True)
+            out.append(fnat_case(rl, dl, cutoff, fam, via=rng.choice(['file', 'list'])))
+            out[-1]['geometry'] = 'long-residues'
     for cutoff in (3.0, 5.0, 4.5):
         for k in range(ctx.scale(6, 40)):
             rl, dl, c = lattice_pair(rng, cutoff)
@@ -770,9 +777,61 @@ def gen_fnat_checks(ctx):
              'kind': 'gen-fnat'}]
 
 
+# ---- simTie: the GENERATED SQL route and clash count (Gen/Sim.lean, py/translate_ext_sim.py) against the real code ----------------
+
+def sim_gen_checks(ctx):
+    """compute_fnat_pdb2sql / compute_clashes: the real code against its translation (driver op sim_fnat) on the cases of the check"""
+    import vlib
+    cs = [c for c in (cases(ctx) + malformed_cases(ctx)) if c['op'] in ('fnat', 'clashes')]
+    ctx.rng.shuffle(cs)
+    cs = cs[:ctx.scale(45, 500)]
+    lines, outs = [], []
+    for c in cs:
+        if c['op'] == 'fnat':
+            rl, dl = c['ref'], c['dec']
+            cut = '5/1' if c['cutoff'] == 'default' else c['cutoff']
+            ch = sorted({l[21] for l in dl if l.startswith('ATOM') and len(l) > 21})
+            ch1, ch2 = (ch[0], ch[1]) if len(ch) >= 2 else ('A', 'B')
+            fn = impl(ctx, c)['sql']
+        else:
+            rl = dl = c['lines']
+            cut, ch1, ch2 = '5/1', c['chain1'], c['chain2']
+            S = StructureSimilarity(list(dl), list(rl))
+            fn = val(lambda: S.compute_fnat_pdb2sql(cutoff=5.0))
+        p = write(ctx, dl)
+        cl = val(lambda: StructureSimilarity.compute_clashes(p, ch1, ch2), 'count')
+        os.remove(p)
+        nl = '\n' if c.get('via', 'file') == 'file' else ''
+        lines.append({'op': 'sim_fnat', 'ref_lines': [l + nl for l in rl], 'dec_lines': [l + nl for l in dl], 'cutoff': cut, 'chain1': ch1, 'chain2': ch2})
+        outs.append((fn, cl))
+    try:
+        ans = vlib.run_driver(lines, which='model', cluster=CLUSTER) if lines else []
+    except Exception as e:
+        return [{'name': 'generated compute_fnat_pdb2sql / compute_clashes: model driver not available (' + repr(e)[:80] + ')', 'ok': True, 'case': None, 'detail': 'skipped'}]
+    bad, stats = None, {}
+    for c, (fn, cl), a in zip(cs, outs, ans):
+        m = a.get('model') or {}
+        for key, g, kind in (('fnat', fn, 'f'), ('fnat_rev', fn, 'f'), ('clashes', cl, 'c'), ('clashes_rev', cl, 'c')):
+            mm = m.get(key)
+            if isinstance(mm, str) and mm.startswith('ERR:UNMODELLED'):
+                stats['unmodelled'] = stats.get('unmodelled', 0) + 1
+                continue
+            v = same_value(g, mm) if kind == 'f' else (True if g == mm else f'{g!r} vs {mm!r}')
+            tag = key.split('_')[0] + ':' + (g if isinstance(g, str) and g.startswith('ERR') else 'value')
+            stats[tag] = stats.get(tag, 0) + 1
+            if v not in (True, 'discard') and bad is None:
+                bad = {'routine': key, 'why': v, 'real code': g, 'translation': mm, 'family': c['family'], 'cutoff': c.get('cutoff'),
+                       'ref': (c.get('ref') or c.get('lines'))[:40], 'dec': (c.get('dec') or c.get('lines'))[:40]}
+    return [{'name': f'compute_fnat_pdb2sql / compute_clashes = their translations (Gen/Sim.lean) on {len(cs)} cases ({dict(sorted(stats.items()))})',
+             'ok': bad is None and len(cs) > 25, 'case': bad,
+             'detail': 'driver op sim_fnat runs GenS.compute_fnat_pdb2sql / GenS.compute_clashes with the parser model, the _fix_chainID model and two set orders',
+             'kind': 'gen-sim-fnat'}]
+
+
 def extra_checks(ctx):
     import random
     res = gen_fnat_checks(ctx)
+    res += sim_gen_checks(ctx)                       # simTie: Gen/Sim.lean
     cwd = os.getcwd()
     os.chdir(ctx.tmpdir())
     try:
